@@ -750,6 +750,7 @@ type c16SelLoop struct {
 	foundTrue bool
 	final     bool
 	key       string
+	ycall     *ssa.Call // set when the whole yield step (scan, swap, p.ix++) lives in a helper: the call's bool result is 'found'
 }
 
 func (l *c16SelLoop) yieldMin() int64 {
@@ -766,6 +767,44 @@ func (l *c16SelLoop) foundBlock() *ssa.BasicBlock {
 	return l.exit.Block().Succs[1]
 }
 
+func (l *c16SelLoop) missBlock() *ssa.BasicBlock {
+	if l.foundTrue {
+		return l.exit.Block().Succs[1]
+	}
+	return l.exit.Block().Succs[0]
+}
+
+// resolveExit finds the branch on best != none (the selection's found / not-found exit).
+func (l *c16SelLoop) resolveExit() bool {
+	if l.best == nil || l.best.Referrers() == nil {
+		return false
+	}
+	for _, r := range *l.best.Referrers() {
+		if t, ok := r.(*ssa.BinOp); ok && (t.Op == token.NEQ || t.Op == token.EQL) && t.Referrers() != nil {
+			other := t.Y
+			if other == l.best {
+				other = t.X
+			}
+			if n, isC := c16K(other); isC && n == l.none {
+				for _, tr := range *t.Referrers() {
+					if iff, ok := tr.(*ssa.If); ok {
+						l.exit, l.foundTrue = iff, t.Op == token.NEQ
+					}
+				}
+			}
+		}
+	}
+	return l.exit != nil
+}
+
+// c16YH is a helper method of the picker that performs a whole yield step: scan
+// [p.ix,len) for the best weight above a floor, swap it to p.ix, advance, and
+// return whether something was found. Its discipline is checked by R5 inside it.
+type c16YH struct {
+	fn  *ssa.Function
+	sel *c16SelLoop // the scan inside the helper (threshold possibly a parameter)
+}
+
 type c16Picker struct {
 	fn      *ssa.Function
 	recv    ssa.Value
@@ -777,6 +816,7 @@ type c16Picker struct {
 	H       int64
 	states  map[int64]string
 	stateTy types.Type
+	yh      map[*ssa.Function]*c16YH
 }
 
 func c16Scan(c *Ctx, p *Prog) *c16Picker {
@@ -792,7 +832,7 @@ func c16Scan(c *Ctx, p *Prog) *c16Picker {
 			return nil
 		}
 	}
-	pk := &c16Picker{fn: fn, states: map[int64]string{}}
+	pk := &c16Picker{fn: fn, states: map[int64]string{}, yh: map[*ssa.Function]*c16YH{}}
 	if len(fn.Params) > 0 {
 		pk.recv = fn.Params[0]
 	}
@@ -812,11 +852,20 @@ func c16Scan(c *Ctx, p *Prog) *c16Picker {
 				helper = "a dynamic, foreign or recursive call"
 				continue
 			}
-			eff := unionEffects(p.closure([]*ssa.Function{callee}, nil))
+			cl := p.closure([]*ssa.Function{callee}, nil)
+			eff := unionEffects(cl)
+			writes := ""
 			for _, f := range []string{c16fIx, c16fState, "picker.Picker.*"} {
 				if len(eff.FieldWrites[f]) > 0 || len(eff.Escapes[f]) > 0 {
-					helper = fnName(callee) + ", which writes " + f
+					writes = f
 				}
+			}
+			if pk.yh[callee] != nil {
+				continue
+			}
+			// a helper that advances the cursor (or scans for the best move and reports success) is followed when it is a self-contained yield step
+			if why := c16YieldHelper(pk, callee, cl, eff); why != "" && writes != "" {
+				helper = fnName(callee) + ", which writes " + writes + " (" + why + ")"
 			}
 		}
 	})
@@ -863,6 +912,41 @@ func c16Scan(c *Ctx, p *Prog) *c16Picker {
 		}
 	})
 	return pk
+}
+
+// c16YieldHelper registers callee as a yield helper of the picker, or says why it is not one.
+func c16YieldHelper(pk *c16Picker, callee *ssa.Function, cl []*ssa.Function, eff *effects) string {
+	if len(eff.FieldWrites[c16fState]) > 0 || len(eff.FieldWrites["picker.Picker.*"]) > 0 || len(eff.Escapes[c16fIx]) > 0 || len(eff.Escapes[c16fState]) > 0 {
+		return "it also writes the state or lets a field address escape"
+	}
+	for _, f := range cl {
+		if f != callee && len(directEffects(f).FieldWrites[c16fIx]) > 0 {
+			return "the cursor is advanced deeper than one call below Next"
+		}
+		for _, spec := range []string{c16GenN, c16GenQ, c16Alloc} {
+			if len(callsIn(f, spec)) > 0 {
+				return "it allocates or generates moves"
+			}
+		}
+	}
+	if len(callee.Params) == 0 || callee.Signature.Results().Len() != 1 || !types.Identical(callee.Signature.Results().At(0).Type().Underlying(), types.Typ[types.Bool]) {
+		return "it is not a method with one bool result"
+	}
+	var sel *c16SelLoop
+	for _, l := range c16SelsIn(callee) {
+		if l.resolveExit() {
+			if sel != nil {
+				return "it contains more than one selection scan"
+			}
+			sel = l
+		}
+	}
+	if sel == nil {
+		return "no selection scan recognised in it"
+	}
+	sel.key = "Next#select-via:" + callee.Name()
+	pk.yh[callee] = &c16YH{fn: callee, sel: sel}
+	return ""
 }
 
 func c16ScanRanks(pk *c16Picker) {
@@ -1098,6 +1182,12 @@ func c16ScanSels(pk *c16Picker) {
 			}
 			return v
 		}
+		if yh := pk.yh[callee]; yh != nil && len(call.Call.Args) > 0 && call.Call.Args[0] == pk.recv {
+			l := *yh.sel // the helper's scan as seen from this call site
+			l.thr, l.ycall, l.anchor, l.exit, l.best = bind(l.thr), call, call, nil, nil
+			cands = append(cands, &l)
+			return
+		}
 		for _, l := range c16SelsIn(callee) {
 			rets := c16Rets(callee)
 			if len(rets) != 1 || len(rets[0].Results) != 1 || rets[0].Results[0] != ssa.Value(l.bestPhi) || !l.bestPhi.Block().Dominates(rets[0].Block()) {
@@ -1109,25 +1199,7 @@ func c16ScanSels(pk *c16Picker) {
 	})
 	for _, l := range cands {
 		var ok bool
-		if l.T, ok = c16K(l.thr); !ok || l.best.Referrers() == nil {
-			continue
-		}
-		for _, r := range *l.best.Referrers() {
-			if t, ok := r.(*ssa.BinOp); ok && (t.Op == token.NEQ || t.Op == token.EQL) && t.Referrers() != nil {
-				other := t.Y
-				if other == l.best {
-					other = t.X
-				}
-				if n, isC := c16K(other); isC && n == l.none {
-					for _, tr := range *t.Referrers() {
-						if iff, ok := tr.(*ssa.If); ok {
-							l.exit, l.foundTrue = iff, t.Op == token.NEQ
-						}
-					}
-				}
-			}
-		}
-		if l.exit == nil {
+		if l.T, ok = c16K(l.thr); !ok || (l.ycall == nil && !l.resolveExit()) {
 			continue
 		}
 		l.final = true
@@ -1242,12 +1314,12 @@ func c16R2(c *Ctx, p *Prog, tun map[string][2]int64) *c16Eval {
 						continue
 					}
 					grav++
-					cMax := max(-cb.lo, cb.hi)
+					cMax := max(-max(cb.lo, -math.MaxInt64), cb.hi)
 					elemR, _ := c16TypeRange(st.Val.Type())
 					prodR, okP := c16TypeRange(prodT)
 					prod, okM := c16MulOv(cMax, max(d, cMax))
 					c.Check(cMax <= d, rule, key+"#clamp<=divisor", st.Pos(),
-						"clamp range %s vs divisor %d: with |cb| <= C <= D the map e -> e + cb - e*|cb|/D keeps |e| <= D (e=D,cb=C gives D - (D-D)(D-C)/D = D; monotone in e); with C > D an entry at D receiving cb=-C lands at -C - D*C/D < -D", cb, d)
+						"range of the bonus entering the update (added value and decay factor) %s vs divisor %d: with |cb| <= C <= D the map e -> e + cb - e*|cb|/D keeps |e| <= D (e=D,cb=C gives D - (D-D)(D-C)/D = D; monotone in e); with C > D an entry at D receiving cb=-C lands at -C - D*C/D < -D", cb, d)
 					c.Check(okP && okM && prod <= prodR.hi, rule, key+"#product-width", st.Pos(),
 						"e*|cb| passes through %s before the division; it can reach %d*%d = %d, which must not wrap (int16 would wrap at 32767 and break the gravity term)", prodT, max(d, cMax), cMax, prod)
 					c.Check(d <= elemR.hi && -d >= elemR.lo && cMax <= elemR.hi, rule, key+"#fits-element", st.Pos(),
@@ -1432,8 +1504,14 @@ func c16GravityVal(val ssa.Value, isE func(ssa.Value) bool, blk *ssa.BasicBlock,
 		a, b = b, a
 	}
 	abs, isCall := b.(*ssa.Call)
-	if !isE(a) || !isCall || len(abs.Call.Args) != 1 || abs.Call.Args[0] != cbv {
-		return 0, cb, nil, "the product is not entry * abs(bonus term) with the same bonus term that is added"
+	if !isE(a) || !isCall || len(abs.Call.Args) != 1 {
+		return 0, cb, nil, "the product is not entry * abs(bonus term)"
+	}
+	// the decay must use the same (clamped) bonus that is added; if it uses the value the added
+	// bonus was clamped from, the recognised deviation is judged with that wider range
+	raw := abs.Call.Args[0]
+	if raw != cbv && !backSlice(cbv, sliceOpts{ThroughCalls: true})[raw] {
+		return 0, cb, nil, "the product is not entry * abs(bonus term) with the bonus term that is added (or the value it was clamped from)"
 	}
 	if !c16AbsOK(abs.Call.StaticCallee()) {
 		return 0, cb, nil, "the function applied to the bonus term is not 'if x < 0 { return -x }; return x'"
@@ -1445,6 +1523,13 @@ func c16GravityVal(val ssa.Value, isE func(ssa.Value) bool, blk *ssa.BasicBlock,
 	r, _ := c16TypeRange(cbv.Type())
 	if iv.lo <= r.lo || iv.hi >= r.hi {
 		return 0, cb, nil, fmt.Sprintf("the clamped bonus is not bounded (range %s)", iv)
+	}
+	if raw != cbv {
+		rv, err := ev.eval(raw, blk, nil, map[ssa.Value]bool{}, 0)
+		if err != nil {
+			return 0, cb, nil, "range of the unclamped bonus used in the decay: " + err.msg
+		}
+		iv = c16Union(iv, rv) // |bonus| in the decay ranges over the unclamped value
 	}
 	return d, iv, narrow, ""
 }
@@ -1568,6 +1653,7 @@ type c16St struct {
 	tag            [6]int64 // value seen by the k-th load of p.state (-1 unknown, -2 not loaded)
 	gN, gQ, hA     int
 	exGood, exRest bool
+	yv             [4]int8 // result of the k-th yield-helper call on this path (0 not yet, 1 found, 2 nothing found)
 }
 
 type c16Run struct {
@@ -1617,13 +1703,37 @@ func c16TagCmp(cond ssa.Value, tagLoads []ssa.Value) (k int, op token.Token, n i
 
 func c16Explore(pk *c16Picker, s int64, tagLoads []ssa.Value) []c16Run {
 	type item struct {
-		b  *ssa.BasicBlock
-		st c16St
+		b    *ssa.BasicBlock
+		from int
+		st   c16St
+	}
+	var ycalls []*c16SelLoop
+	for _, l := range pk.sels {
+		if l.ycall != nil && len(ycalls) < 4 {
+			ycalls = append(ycalls, l)
+		}
+	}
+	// boolOf: the value of a bool on this path, when it is (the negation of) a yield helper's result
+	var boolOf func(v ssa.Value, st c16St) (val, known bool)
+	boolOf = func(v ssa.Value, st c16St) (bool, bool) {
+		if u, ok := v.(*ssa.UnOp); ok && u.Op == token.NOT {
+			b, k := boolOf(u.X, st)
+			return !b, k
+		}
+		if n, ok := c16K(v); ok {
+			return n != 0, true
+		}
+		for k, l := range ycalls {
+			if v == ssa.Value(l.ycall) && st.yv[k] != 0 {
+				return st.yv[k] == 1, true
+			}
+		}
+		return false, false
 	}
 	seen := map[item]bool{}
 	var runs []c16Run
 	seenRun := map[c16Run]bool{}
-	work := []item{{pk.fn.Blocks[0], c16St{cur: s, tag: [6]int64{-2, -2, -2, -2, -2, -2}}}}
+	work := []item{{pk.fn.Blocks[0], 0, c16St{cur: s, tag: [6]int64{-2, -2, -2, -2, -2, -2}}}}
 	bump := func(n int) int { return min(n+1, 2) }
 	for len(work) > 0 {
 		it := work[len(work)-1]
@@ -1633,9 +1743,10 @@ func c16Explore(pk *c16Picker, s int64, tagLoads []ssa.Value) []c16Run {
 		}
 		seen[it] = true
 		st := it.st
-		push := func(b *ssa.BasicBlock, s c16St) { work = append(work, item{b, s}) }
-		for _, in := range it.b.Instrs {
-			switch x := in.(type) {
+		push := func(b *ssa.BasicBlock, s c16St) { work = append(work, item{b, 0, s}) }
+	instrs:
+		for idx := it.from; idx < len(it.b.Instrs); idx++ {
+			switch x := it.b.Instrs[idx].(type) {
 			case *ssa.UnOp:
 				for k, t := range tagLoads {
 					if ssa.Value(x) == t {
@@ -1649,6 +1760,19 @@ func c16Explore(pk *c16Picker, s int64, tagLoads []ssa.Value) []c16Run {
 					}
 				}
 			case *ssa.Call:
+				for k, l := range ycalls {
+					if l.ycall == x { // fork on the helper's result: found (it yielded), or its scan is exhausted
+						sT, sF := st, st
+						sT.yv[k], sF.yv[k] = 1, 2
+						if l.final {
+							sF.exRest = true
+						} else {
+							sF.exGood = true
+						}
+						work = append(work, item{it.b, idx + 1, sT}, item{it.b, idx + 1, sF})
+						break instrs
+					}
+				}
 				switch objName(calleeObj(x)) {
 				case c16GenN:
 					st.gN = bump(st.gN)
@@ -1660,11 +1784,14 @@ func c16Explore(pk *c16Picker, s int64, tagLoads []ssa.Value) []c16Run {
 			case *ssa.Return:
 				r := c16Run{st: st, ret: -1, pos: x.Pos()}
 				if len(x.Results) == 1 {
-					if n, ok := c16K(x.Results[0]); ok {
-						r.ret = int(n)
+					if v, ok := boolOf(x.Results[0], st); ok {
+						r.ret = 0
+						if v {
+							r.ret = 1
+						}
 					}
 				}
-				r.st.tag = [6]int64{}
+				r.st.tag, r.st.yv = [6]int64{}, [4]int8{}
 				if !seenRun[r] {
 					seenRun[r] = true
 					runs = append(runs, r)
@@ -1676,10 +1803,12 @@ func c16Explore(pk *c16Picker, s int64, tagLoads []ssa.Value) []c16Run {
 				if k, op, n, ok := c16TagCmp(x.Cond, tagLoads); ok && st.tag[k] >= 0 {
 					takeT = c16CmpInt(op, st.tag[k], n)
 					takeF = !takeT
+				} else if v, ok := boolOf(x.Cond, st); ok {
+					takeT, takeF = v, !v
 				}
 				sT, sF := st, st
 				for _, l := range pk.sels {
-					if l.exit == x {
+					if l.exit != nil && l.exit == x {
 						miss := &sF
 						if !l.foundTrue {
 							miss = &sT
@@ -1944,32 +2073,35 @@ func c16R4(c *Ctx, p *Prog, pk *c16Picker) {
 	c.Floor(rule, n, 2, "ranking loops")
 }
 
-// ---------------------------------------------------------------- R5 selection, swap, cursor
-
-func c16R5(c *Ctx, p *Prog, pk *c16Picker) {
-	const rule = "C16.R5"
-	fn := pk.fn
-	// (a) selection loops
-	for _, l := range pk.sels {
-		_, constInit := c16K(l.init)
-		c16Tri(c, isCallValueTo(l.x, c16Frame) && c16LoadOfField(l.init, c16fIx) && l.guarded && l.none < 0, constInit || l.none >= 0, rule, l.key+"#argmax-over-unyielded", l.cmp.Pos(),
-			"selection is an argmax of Weight over i in [p.ix, len(Frame())) with threshold %d (strict: %v) and 'none' marker %d: starting before p.ix would re-yield, starting after would skip", l.T, l.strict, l.none)
+// c16CursorUnit checks the cursor discipline of one function that works on the
+// picker recv: fn is Next itself or a yield helper. sels are selection scans
+// written in fn, via are yield-helper calls in fn (their result is 'found' and a
+// true result includes exactly one step), allocs the hash-move allocations.
+// Every 'return true' must follow exactly one p.ix++ and the placement of the
+// yielded element at the cursor; 'return false' must follow no step (and, in a
+// helper, only the scan's not-found exit). Returns the number of yield exits.
+func c16CursorUnit(c *Ctx, rule, name string, fn *ssa.Function, recv ssa.Value, sels, via []*c16SelLoop, allocs []ssa.CallInstruction, isHelper bool) int {
+	viaOf := func(v ssa.Value) *c16SelLoop {
+		for _, l := range via {
+			if v == ssa.Value(l.ycall) {
+				return l
+			}
+		}
+		return nil
 	}
-	c.Floor(rule+".selections", len(pk.sels), 2, "selection loops")
-	// (b) cursor stores
 	var ixStores []*ssa.Store
 	allInstrs(fn, func(in ssa.Instruction) {
 		if st, ok := in.(*ssa.Store); ok {
 			if base, ok := c16FieldAddr(st.Addr, c16fIx); ok {
 				ixStores = append(ixStores, st)
 				add, isAdd := st.Val.(*ssa.BinOp)
-				okInc := isAdd && add.Op == token.ADD && c16LoadOfField(add.X, c16fIx) && base == pk.recv
+				okInc := isAdd && add.Op == token.ADD && c16LoadOfField(add.X, c16fIx) && base == recv
 				if okInc {
 					k, isC := constOf(add.Y)
 					okInc = isC && k == 1
 				}
 				if !okInc {
-					c.Undec(rule, fmt.Sprintf("Next#cursor-store@%d", len(ixStores)), st.Pos(), "p.ix is assigned something other than p.ix + 1; the one-step rule only understands increments")
+					c.Undec(rule, fmt.Sprintf("%s#cursor-store@%d", name, len(ixStores)), st.Pos(), "p.ix is assigned something other than p.ix + 1; the one-step rule only understands increments")
 				}
 			}
 		}
@@ -1988,9 +2120,13 @@ func c16R5(c *Ctx, p *Prog, pk *c16Picker) {
 					}
 				}
 			}
-			for _, s := range b.Succs {
-				if in[s.Index]|out != in[s.Index] {
-					in[s.Index] |= out
+			for k, s := range b.Succs {
+				o := out
+				if iff, ok := b.Instrs[len(b.Instrs)-1].(*ssa.If); ok && k == 0 && viaOf(iff.Cond) != nil {
+					o = (o<<1)&7 | (o & 4) // the helper found something: it stepped once
+				}
+				if in[s.Index]|o != in[s.Index] {
+					in[s.Index] |= o
 					changed = true
 				}
 			}
@@ -2014,26 +2150,41 @@ func c16R5(c *Ctx, p *Prog, pk *c16Picker) {
 			continue
 		}
 		v, isC := c16K(ret.Results[0])
-		if !isC {
-			c.Undec(rule, "Next#return-nonconstant", ret.Pos(), "Next returns a computed value; yields cannot be told from exhaustion")
+		cnt := countAt(ret)
+		if l := viaOf(ret.Results[0]); !isC && l != nil {
+			// 'return p.helper(..)': found => the helper stepped once and we report a yield, otherwise neither
+			nYield++
+			c.Check(cnt == 1, rule, strings.Replace(l.key, "select", "yield", 1)+"#one-step", ret.Pos(), "the helper's result is returned directly and p.ix was not advanced before the call on any path (count set %03b): a yield makes exactly the helper's one step, exhaustion none", cnt)
 			continue
 		}
-		cnt := countAt(ret)
+		if !isC {
+			c.Undec(rule, name+"#return-nonconstant", ret.Pos(), "%s returns a computed value; yields cannot be told from exhaustion", name)
+			continue
+		}
 		if v == 0 {
-			c.Check(cnt == 1, rule, fmt.Sprintf("Next#return-false@b%d#cursor-unchanged", b.Index), ret.Pos(), "'return false' is reached with p.ix advanced on no path (count set %03b): an advance without a yield skips the element at the cursor", cnt)
+			c.Check(cnt == 1, rule, fmt.Sprintf("%s#return-false@b%d#cursor-unchanged", name, b.Index), ret.Pos(), "'return false' is reached with p.ix advanced on no path (count set %03b): an advance without a yield skips the element at the cursor", cnt)
+			if isHelper {
+				onMiss := false
+				for _, l := range sels {
+					onMiss = onMiss || (len(l.missBlock().Preds) == 1 && l.missBlock().Dominates(b))
+				}
+				if !onMiss {
+					c.Undec(rule, fmt.Sprintf("%s#return-false@b%d#only-when-exhausted", name, b.Index), ret.Pos(), "the yield helper can return false on a path that is not the not-found exit of its scan: Next would take that for exhaustion")
+				}
+			}
 			continue
 		}
 		nYield++
 		// which yield is this?
 		kind, key := "", ""
 		var sel *c16SelLoop
-		for _, l := range pk.sels {
+		for _, l := range sels {
 			if l.foundBlock().Dominates(b) && len(l.foundBlock().Preds) == 1 {
 				sel, kind, key = l, "swap", strings.Replace(l.key, "select", "yield", 1)
 			}
 		}
 		var alloc ssa.CallInstruction
-		for _, a := range pk.allocs {
+		for _, a := range allocs {
 			if instrDominates(a, ret) {
 				alloc = a
 			}
@@ -2042,10 +2193,20 @@ func c16R5(c *Ctx, p *Prog, pk *c16Picker) {
 			kind, key = "alloc", "Next#yield-hash"
 		}
 		if kind == "" {
-			c.Undec(rule, fmt.Sprintf("Next#return-true@b%d", b.Index), ret.Pos(), "'return true' is behind neither a recognised selection scan nor the hash-move Alloc: cannot tell what was placed at the cursor")
+			for _, ce := range controllingConds(b) {
+				if l := viaOf(ce.Cond); l != nil && ce.True {
+					kind, key = "helper", strings.Replace(l.key, "select", "yield", 1)
+				}
+			}
+		}
+		if kind == "" {
+			c.Undec(rule, fmt.Sprintf("%s#return-true@b%d", name, b.Index), ret.Pos(), "'return true' is behind neither a recognised selection scan nor the hash-move Alloc: cannot tell what was placed at the cursor")
 			continue
 		}
 		c.Check(cnt == 2, rule, key+"#one-step", ret.Pos(), "'return true' is reached with exactly one p.ix++ on every path (count set %03b; 010 = exactly one): Move() reads p.ix-1, so no step re-yields the previous move and two steps skip one", cnt)
+		if kind == "helper" {
+			continue // the element was placed by the helper, whose own exits are checked as a unit
+		}
 		if kind == "alloc" {
 			hw := false
 			allInstrs(fn, func(in ssa.Instruction) {
@@ -2106,6 +2267,39 @@ func c16R5(c *Ctx, p *Prog, pk *c16Picker) {
 			}
 		}
 		c16Tri(c, okSwap, toIx != nil || toBest != nil, rule, key+"#swap", ret.Pos(), "before the step, moves[p.ix] and moves[best] are exchanged (both read before either is written, with the pre-increment cursor): a plain overwrite would lose the displaced move and duplicate the selected one")
+	}
+	return nYield
+}
+
+// ---------------------------------------------------------------- R5 selection, swap, cursor
+
+func c16R5(c *Ctx, p *Prog, pk *c16Picker) {
+	const rule = "C16.R5"
+	fn := pk.fn
+	// (a) selection loops
+	for _, l := range pk.sels {
+		_, constInit := c16K(l.init)
+		c16Tri(c, isCallValueTo(l.x, c16Frame) && c16LoadOfField(l.init, c16fIx) && l.guarded && l.none < 0, constInit || l.none >= 0, rule, l.key+"#argmax-over-unyielded", l.cmp.Pos(),
+			"selection is an argmax of Weight over i in [p.ix, len(Frame())) with threshold %d (strict: %v) and 'none' marker %d: starting before p.ix would re-yield, starting after would skip", l.T, l.strict, l.none)
+	}
+	c.Floor(rule+".selections", len(pk.sels), 2, "selection loops")
+	// (b) cursor discipline of Next and of every yield helper it calls
+	var local, viaHelper []*c16SelLoop
+	for _, l := range pk.sels {
+		if l.ycall != nil {
+			viaHelper = append(viaHelper, l)
+		} else {
+			local = append(local, l)
+		}
+	}
+	nYield := c16CursorUnit(c, rule, "Next", fn, pk.recv, local, viaHelper, pk.allocs, false)
+	var hs []*c16YH
+	for _, h := range pk.yh {
+		hs = append(hs, h)
+	}
+	sort.Slice(hs, func(i, j int) bool { return hs[i].fn.Name() < hs[j].fn.Name() })
+	for _, h := range hs {
+		c16CursorUnit(c, rule, h.fn.Name(), h.fn, h.fn.Params[0], []*c16SelLoop{h.sel}, nil, nil, true)
 	}
 	c.Floor(rule, nYield, 3, "'return true' sites of Next")
 	// (c) Move / YieldedMoves
@@ -2221,6 +2415,9 @@ func init() {
 		Mutant{Name: "C16.R2-capthist-clamp-widened", Prop: "C16", File: "heur/capthist.go",
 			Old: "Clamp(bonus, -MaxHistory, MaxHistory)", New: "Clamp(bonus, -2*MaxHistory, 2*MaxHistory)",
 			Expect: "C16.R2/heur.(*CaptHist).Add#clamp<=divisor"},
+		Mutant{Name: "C16.R2-continuation-decay-from-unclamped-bonus", Prop: "C16", File: "heur/cont.go",
+			Old: "int(Abs(clampedBonus))", New: "int(Abs(bonus))",
+			Expect: "C16.R2/heur.(*Continuation).Add#clamp<=divisor"},
 		Mutant{Name: "C16.R2-history-clamp-dropped", Prop: "C16", File: "heur/hist.go",
 			Old: "clampedBonus := Clamp(bonus, -MaxHistory, MaxHistory)", New: "clampedBonus := bonus",
 			Expect: "C16.R2/heur.(*History).Add"},
